@@ -118,7 +118,8 @@ def torch_roll(it, args, kwargs, node):
     ok2, d = const_of(dims) if dims is not None else (True, None)
     t = x.term
     ax = _axis(dims, x.rank) if dims is not None and ok2 and d is not None else None
-    nt = T.app("roll", t, s if ok1 else repr(shifts), ax if ax is not None else ("flat" if d is None else "?")) if t is not None else None
+    st_ = num_term(shifts) if not ok1 else None
+    nt = T.app("roll", t, s if ok1 else (st_ if st_ is not None else repr(shifts)), ax if ax is not None else ("flat" if d is None else "?")) if t is not None else None
     r = it.fresh(nt, x.shape, x.kind, node)
     r.obj.valkind = x.obj.valkind
     return r
@@ -319,6 +320,9 @@ def literal_tensor(it, v, node, kind="tensor"):
         nt = num_term(x)
         if nt is not None:
             return nt, ()
+        if isinstance(x, VConst) and isinstance(x.value, complex):
+            # a python complex number: re + i im with the literal imaginary unit
+            return T.P(x.value.real) + T.sym("lit:1j") * T.P(x.value.imag), ()
         if isinstance(x, VConst) and isinstance(x.value, str):
             return T.sym("lit:%r" % x.value), ()
         if isinstance(x, VUnknown) and x.kind not in ("starred", "iter"):
@@ -1156,6 +1160,10 @@ def call_numpy(it, f, args, kwargs, node):
             r = split_list(it, args[0], VNum("int", n_t, pos=True), None, node)
             if r is not None:
                 return r
+    if f in ("eye", "identity") and len(args) == 1 and const_of(args[0])[0] and isinstance(const_of(args[0])[1], int) and 1 <= const_of(args[0])[1] <= 4 and not kwargs:
+        n_ = const_of(args[0])[1]
+        rows = [T.stack0(*[T.ONE if i_ == j_ else T.ZERO for j_ in range(n_)]) for i_ in range(n_)]
+        return it.fresh(T.stack0(*rows), (n_, n_), "ndarray", node)
     if f in ("array", "asarray"):
         x = args[0]
         return literal_tensor(it, x, node, kind="ndarray")
@@ -1880,7 +1888,9 @@ def dict_method(it, dv, name, args, kwargs, node):
             for x in vals:
                 r.obj.may_alias.add(x.obj)
             return r
-        return VUnknown("get(%s)" % d.origin, "unknown", d.origin)
+        u = VUnknown("get(%s)" % d.origin, "unknown", d.origin)
+        u.got_from, u.key = d, (args[0] if args else None)
+        return u
     if name == "copy":
         nd = it.new_dict(dict(d.items) if d.items is not None else None)
         nd.obj.extra_unknown = d.extra_unknown
